@@ -266,6 +266,30 @@ pub fn configs(n_links: usize, tag: &str) -> Vec<Config> {
             ambiguous: false,
         });
     }
+    // (xiii) a MATCH between two links that record one artifact with two algorithms, agreeing in one
+    // digest and not in the other (the order inside a digest map is a hash-map order that has no
+    // choice point: this configuration is for the repetition supplement)
+    if n_links == 2 {
+        let dir = util::fresh_dir(&format!("c13-{tag}"));
+        let t = keys::get("ed5");
+        let mk = |sha512_of: u8| -> in_toto::models::TargetDescription {
+            let mut d = world::desc(1);
+            d.insert(in_toto::crypto::HashAlgorithm::Sha512, in_toto::crypto::HashValue::new(util::sha512(&[sha512_of])));
+            d
+        };
+        let s_step = world::step("s", 1, &f[..1]);
+        let t_step = world::step("t", 1, &[t])
+            .add_expected_material(in_toto::models::rule::ArtifactRule::Match { pattern: "a".into(), in_src: None, with: in_toto::models::rule::Artifact::Products, in_dst: None, from: "s".into() })
+            .add_expected_material(in_toto::models::rule::ArtifactRule::Disallow("*".into()));
+        let mut table: Vec<&Key> = f.to_vec();
+        table.push(t);
+        let lay = world::layout(vec![s_step, t_step], vec![], &table, world::far_future());
+        let ls = world::link("s", world::arts(&[]), [(world::vpath("a"), mk(1))].into_iter().collect());
+        let lt = world::link("t", [(world::vpath("a"), mk(2))].into_iter().collect(), world::arts(&[("z", 5)]));
+        write_link(&dir, "s", f[0], &world::sign_link(ls, &[f[0]]));
+        write_link(&dir, "t", t, &world::sign_link(lt, &[t]));
+        out.push(Config { name: "xiii:match-two-algorithms-one-agrees".into(), layout: world::sign_layout(lay, &[owner]), owners: world::owner_map(&[owner]), dir, ambiguous: false });
+    }
     // (vi) more files than needed, some invalid: one valid link, one with a bad
     // signature, one signed by a key outside the key table, one doubly signed
     {
@@ -689,6 +713,7 @@ pub fn run(tier: Tier) -> i32 {
     c.extra.insert("hooked_iteration_sites_found_by_lint".into(), json!(hooked));
     acc.sample(|| json!({"config": "i:thr1:2links-differ-in-products", "script": [0, 1], "meaning": "choice point 1 uses permutation 1, all others sorted order"}));
     c.caps_hit = capped;
+    crate::envprobe::judge(&mut acc, "C13:", &mut c.extra);
     c.acc = acc;
     c.rule = "states = configurations (layout + keys + link directory); transitions = executed schedules (permutation vectors over the hooked iteration sites A,B,B2,C,D,E,F); a configuration is non-trivial when more valid evidence exists than needed and it differs, so that a representative must be picked; each schedule is one run of the real in_toto_verify".into();
     c.bound_completed = format!(
